@@ -150,6 +150,8 @@ def judge_c13(exp, run, stats=None):
             if stats is not None:
                 stats["invoke:" + op] += 1
                 stats["target:" + tk] += 1
+                if (caller, off) in exp.after_payload:
+                    stats["invoke behind a mid-method payload"] += 1
             ent = got.pop(off, [])
             if tk == "array-primitive":
                 if stats is not None:
@@ -157,6 +159,8 @@ def judge_c13(exp, run, stats=None):
                 continue
             key = "callee:%s:%s" % (tk, form)
             site = "%s at +%d in %s->%s%s (target %s->%s%s)" % ((op, off) + caller + tgt)
+            if not ent and (caller, off) in exp.after_payload:
+                key = "callee:after-payload"
             if len(ent) != 1:
                 out.append((key, "%s: get_xref_to() has %d entries at this offset, expected exactly 1: %r"
                             % (site, len(ent), [mtrip(m) for _, m in ent]), caller))
@@ -251,6 +255,11 @@ def judge_c14(exp, run, stats=None):
         for (me, off, op, fld) in rel:
             if fld in exp.fields:
                 acc_where[fld].add(where(exp, me[0], fld[0]))
+    accessed_names = collections.defaultdict(set)         # (class, field name) -> types accessed somewhere in the model
+    for rel in (exp.reads, exp.writes):
+        for (me, off, op, fld) in rel:
+            if fld in exp.fields:
+                accessed_names[fld[:2]].add(fld[2])
     seen = collections.Counter(ftrip(fa) for fa in dx.get_fields())
     for fld in sorted(exp.fields):
         ws = acc_where.get(fld, ())
@@ -270,6 +279,10 @@ def judge_c14(exp, run, stats=None):
                     stats["unjudged:access to a field not defined under that exact (class,name,type)"] += 1
                 continue
             w = where(exp, me[0], fld[0])
+            if w == "own-class" and (me, off) in exp.after_payload:
+                w = "after-payload"
+            elif w == "own-class" and len(accessed_names[fld[:2]]) > 1:
+                w = "same-name-other-type"
             if stats is not None:
                 stats["access:" + op] += 1
                 stats["where:" + w] += 1
@@ -322,6 +335,12 @@ def judge_c15(exp, run, stats=None):
         if stats is not None:
             stats["string:" + op] += 1
         key = "string:%s%s" % (op, ":several-methods" if len(n_loaders[val]) > 1 else "")
+        if val == "":
+            key = "string:empty"
+        elif (me, off) in exp.after_payload:
+            key = "string:after-payload"
+        if stats is not None:
+            stats["string-value:%r" % val] += 1
         ma, ca = run.ma(me), dx.get_class_analysis(me[0])
         sa = sa_all.get(val)
         if sa is None or ma is None:
@@ -341,9 +360,15 @@ def judge_c15(exp, run, stats=None):
            "const-class": (collections.defaultdict(set), collections.defaultdict(set))}
     opt = {"new-instance": (collections.defaultdict(set), collections.defaultdict(set)),
            "const-class": (collections.defaultdict(set), collections.defaultdict(set))}
+    self_refd = {t for rel in (exp.news, exp.consts) for (me, off, t) in rel if t == me[0]}
+    self_seen = {True: [], False: []}
     for rel, op in ((exp.news, "new-instance"), (exp.consts, "const-class")):
         for (me, off, t) in sorted(rel):
             tk = type_kind(exp, me, t)
+            if tk == "self":
+                ca_, ma_ = dx.get_class_analysis(t), run.ma(me)
+                lst_ = (ca_.get_xref_new_instance() if op == "new-instance" else ca_.get_xref_const_class()) if ca_ else ()
+                self_seen[(ma_, off) in lst_].append("%s %s at +%d in %s->%s%s" % ((op, t, off) + me))
             if stats is not None:
                 stats["%s:%s" % (op, tk)] += 1
             if tk == "array-of-primitive":
@@ -361,6 +386,12 @@ def judge_c15(exp, run, stats=None):
             req[op][1][id(ma)].add((t, off))
             ca = dx.get_class_analysis(t)
             key = "class-use:%s:%s" % (op, tk)
+            if t in self_refd:
+                key = "class-use:self-then-other"          # the operand class also references itself somewhere
+                if stats is not None:
+                    stats["class-use of a class that also references itself"] += 1
+            elif (me, off) in exp.after_payload:
+                key = "class-use:after-payload"
             site = "%s %s at +%d in %s->%s%s" % ((op, t, off) + me)
             if ca is None or ma is None:
                 out.append((key, "%s: no ClassAnalysis for the operand class" % site, me))
@@ -373,6 +404,9 @@ def judge_c15(exp, run, stats=None):
             if (ca, off) not in mlist:
                 out.append((key, "%s: missing from the method's get_xref_%s(): %r"
                             % (site, op.replace("-", "_"), sorted((c.name, o) for c, o in mlist)), me))
+    if self_seen[True] and self_seen[False]:
+        out.append(("class-use:other-then-self", "references of a class to itself are treated inconsistently within one analysis: "
+                    "listed: %r; not listed: %r" % (self_seen[True][:4], self_seen[False][:4])))
     item_at = {}
     for t in exp.news:
         item_at[(t[0], t[1])] = "new-instance"
@@ -483,6 +517,7 @@ def expected_dump(exp):
     for (me, off, t) in exp.news | exp.consts:
         if t not in exp.dex_of_class:
             ext_cls.add(t)
+    # a class's references to itself are expected to be ignored (analysis.py: "effectively ignoring calls to itself")
     d = {
         "classes": sorted([(c, False) for c in exp.dex_of_class] + [(c, True) for c in ext_cls]),
         "methods": sorted([m + (False,) for m in exp.methods] + [m + (True,) for m in stubs]),
@@ -493,8 +528,10 @@ def expected_dump(exp):
         "f_read": sorted((f, me, off) for (me, off, op, f) in exp.reads if f in exp.fields),
         "f_write": sorted((f, me, off) for (me, off, op, f) in exp.writes if f in exp.fields),
         "s_from": sorted((v, me, off) for (me, off, op, v) in exp.strings),
-        "m_new": sorted((me, t, off) for (me, off, t) in exp.news), "c_new": sorted((t, me, off) for (me, off, t) in exp.news),
-        "m_const": sorted((me, t, off) for (me, off, t) in exp.consts), "c_const": sorted((t, me, off) for (me, off, t) in exp.consts),
+        "m_new": sorted((me, t, off) for (me, off, t) in exp.news if t != me[0]),
+        "c_new": sorted((t, me, off) for (me, off, t) in exp.news if t != me[0]),
+        "m_const": sorted((me, t, off) for (me, off, t) in exp.consts if t != me[0]),
+        "c_const": sorted((t, me, off) for (me, off, t) in exp.consts if t != me[0]),
     }
     if exp.pool_strings is not None:
         d["strings"] = sorted(exp.pool_strings)
@@ -569,14 +606,18 @@ def classify_diff(exp, a, b, differential):
 # =================================================================================================== C13/C14/C15 exploration
 def xm3_space(ctx):
     from gen import xrefmodels as X
-    return {"model": "DEX0 = {LA; (m<k> = generated body, n = fixed body), LB; (t(IJ)V, clone(), field g, static s; u()I only "
-                     "declared)}, DEX1 = {LD; (r = fixed body, field k)}; externals Lext/E;, [Ljava/lang/Object;",
+    return {"model": "DEX0 = {LA; (m<k> = generated body, n = fixed body, fields f:I and f:String), LB; (t(IJ)V, clone(), fields "
+                     "g:I and g:J, static s; u()I only declared)}, DEX1 = {LD; (r = fixed body, field k)}; externals Lext/E;, [Ljava/lang/Object;",
             "alphabet_size": len(X.ALPHABET), "extended_singles": len(X.ALPHABET_X),
             "invoke_ops": X.INVOKE_OPS, "invoke_targets": {k: "%s->%s%s" % (v[0], v[1], X.mdesc(v[2], v[3])) for k, v in X.METHODS.items()},
             "field_ops_in_sequences": X.FIELD_OPS, "field_ops_in_singles": X.FIELD_OPS_ALL,
             "field_targets": {k: "%s->%s %s" % v for k, v in X.FIELDS.items()},
             "strings": X.STRINGS, "string_ops": X.STRING_OPS, "types": X.TYPES, "type_ops": X.TYPE_OPS,
             "noise": ["%s %s" % n for n in X.NOISE],
+            "payload_mid_method": ["fill-array-data + goto + fill-array-data-payload", "packed-switch + goto + packed-switch-payload"],
+            "fixed_bodies": "A.n and D.r use the same targets (sharing across methods / DEX files); B.t instantiates B itself before "
+                            "D.r instantiates B; B.clone references A (after A.m<k> may have referenced A itself) and accesses "
+                            "the same-named fields B.g:I / B.g:J; A.n accesses A.f:I (A.f:String only through the alphabet)",
             "max_sequence_length": 3 if ctx.thorough else 2,
             "sequences": sum(len(X.ALPHABET) ** k for k in range((3 if ctx.thorough else 2) + 1)) + len(X.ALPHABET_X),
             "batching": "bodies of length <= 2: one program per model; length 3 (thorough): the %d bodies sharing a 2-prefix are "
@@ -649,7 +690,9 @@ def explore_xm3(ctx, shard, judge, acc, orders, relevant, outcome):
     relevant(item) -> bool marks items that make a body non-trivial for the property; outcome(run, k) -> observation of m<k>."""
     from gen import xrefmodels as X
     stats = collections.Counter()
+    orders_of = orders if callable(orders) else (lambda seqs, _o=orders: _o)
     for seqs in xm3_models(shard):
+        orders = orders_of(seqs)
         for sf in orders:
             try:
                 res, exp, run = judge_xm3(seqs, sf, judge, stats)
